@@ -193,14 +193,24 @@ class Driver:
         import threading
         outs = [None] * shards
 
+        limit = max(WD['limit'], 300)
+
         def work(i):
-            o, _ = procs[i].communicate('\n'.join(chunks[i]) + '\n')
-            outs[i] = o.split('\n')
+            # the extracted model follows the regenerated tables: a changed regex can make its backtracking matcher run (practically) for ever on an
+            # input; the shard is then cut off, what it answered so far is kept and the rest counts as unanswered (a mismatch that is examined on the implementation)
+            try:
+                o, _ = procs[i].communicate('\n'.join(chunks[i]) + '\n', timeout=limit)
+            except subprocess.TimeoutExpired:
+                procs[i].kill()
+                o, _ = procs[i].communicate()
+            outs[i] = (o or '').split('\n')
         ths = [threading.Thread(target=work, args=(i,)) for i in range(shards)]
         for t in ths:
             t.start()
         for t in ths:
-            t.join()
+            while t.is_alive():
+                t.join(30)
+                keepalive()
         res = [None] * len(requests)
         for i in range(shards):
             for j, line in enumerate(outs[i][:len(chunks[i])]):
